@@ -109,7 +109,15 @@ func (d *Decoder) Decode(bts []byte) (interface{}, error) {
 }
 
 //ReadObject read new object from reader
-func (d *Decoder) ReadObject() (interface{}, error) {
+func (d *Decoder) ReadObject() (object interface{}, err error) {
+	// input whose structure does not fit the registered Go types (a list where
+	// a struct is expected, a string as a map key of int type, ...) is an
+	// error of the input, reported as such instead of panicking the caller
+	defer func() {
+		if r := recover(); r != nil {
+			object, err = nil, newCodecError("ReadObject", "input does not match the registered types: %v", r)
+		}
+	}()
 	return EnsureInterface(d.ReadData())
 }
 
